@@ -10,6 +10,7 @@ import (
 	"github.com/oasisprotocol/curve25519-voi/curve"
 	"github.com/oasisprotocol/curve25519-voi/curve/scalar"
 	"github.com/oasisprotocol/curve25519-voi/primitives/ed25519"
+	"github.com/oasisprotocol/curve25519-voi/primitives/ed25519/extra/cache"
 
 	"verifsim/core"
 	"verifsim/simio"
@@ -130,6 +131,8 @@ func c02MakeCompanion() {
 // the tour (a server reading requests into one buffer), sometimes after another signer's honest tuple went
 // through it; what earlier requests left there, and whatever the library remembered, must not show.
 var (
+	c02cvOwner *core.Run
+	c02cv      *cache.Verifier
 	c02rxOwner *core.Run
 	c02rxOn    bool
 	c02rx      []byte
@@ -266,6 +269,41 @@ func c02AllPaths(r *core.Run, pk, msg, sig []byte, v c02Variant) (acc, total int
 				} else if detail == "" {
 					detail = []string{"batch with a valid neighbour/", "batch with a valid and a malformed neighbour/"}[k] + c02presetNames[i]
 				}
+			}
+		}
+		// through the caching verifier (a small LRU kept for the whole run, shared with another signer's key):
+		// miss, hit, and the entry a batch gets from it
+		if c02companion != nil {
+			if c02cvOwner != r {
+				c02cvOwner, c02cv = r, cache.NewVerifier(cache.NewLRUCache(1))
+			}
+			cok := false
+			if pan, _ := Guard(func() { cok = c02cv.Verify(c02companion.pk, c02companion.msg, c02companion.sig) }); (pan || !cok) && len(r.Main.Fails()) == 0 {
+				r.Fail("completeness", "other-signer-rejected", "another signer's honest tuple was rejected by the caching verifier that also serves this run's key")
+			}
+			for k := 0; k < 2; k++ {
+				vok := false
+				if pan, _ := Guard(func() { vok = c02cv.VerifyWithOptions(pk, msg, sig, o) }); pan {
+					vok = false
+				}
+				r.Count(c02verifies)
+				total++
+				if vok {
+					acc++
+				} else if detail == "" {
+					detail = []string{"single through the caching verifier (miss)/", "single through the caching verifier (hit)/"}[k] + c02presetNames[i]
+				}
+			}
+			cb := ed25519.NewBatchVerifier()
+			c02cv.AddWithOptions(cb, pk, msg, sig, o)
+			c02cv.Add(cb, c02companion.pk, c02companion.msg, c02companion.sig)
+			_, cres := cb.Verify(NewDetReader(uint64(i) + 81))
+			r.Count(c02batches)
+			total++
+			if len(cres) == 2 && cres[0] && cres[1] {
+				acc++
+			} else if detail == "" {
+				detail = "batch filled through the caching verifier/" + c02presetNames[i]
 			}
 		}
 		// the precomputed key: singly (twice: the key object must not be changed by use) and in a batch
